@@ -818,10 +818,19 @@ class Summariser:
         names = [x.arg for x in a.posonlyargs + a.args]
         if not static:
             args = [("param", "self")] + args
-        if len(args) > len(names) or a.vararg or a.kwarg:
+        if (len(args) > len(names) and not a.vararg) or a.kwonlyargs:
+            return None
+        extra_kw = [(k, v) for k, v in kws if k not in names]
+        if extra_kw and not a.kwarg:
             return None
         sub = probe.fork()
         sub.env = dict(self.inline_env(probe))
+        if a.vararg:
+            sub.env[a.vararg.arg] = ("tuple", tuple(args[len(names):]))
+            args = args[:len(names)]
+        if a.kwarg:
+            sub.env[a.kwarg.arg] = ("kwdict", tuple(extra_kw))
+            kws = [(k, v) for k, v in kws if k in names]
         defaults = dict(zip(names[len(names) - len(a.defaults):], a.defaults))
         for nm in names[len(args):]:
             if nm in dict(kws):
@@ -1428,6 +1437,10 @@ class Summariser:
         t = ("sub", b, k)
         if b[0] in ("tuple", "list") and N.is_int(k) and -len(b[1]) <= k[2] < len(b[1]):
             return b[1][k[2]]
+        if N.is_const(k) and isinstance(k[2], str) and b[0] == "call" and b[1] == ("free", "dict") and not b[2] and k[2] in dict(b[3]) and "**" not in dict(b[3]):
+            return dict(b[3])[k[2]]          # dict(id=x, ...)["id"] is x
+        if N.is_const(k) and b[0] == "dict" and any(kk == k for kk, _ in b[1]) and not any(kk == ("**",) for kk, _ in b[1]):
+            return [vv for kk, vv in b[1] if kk == k][-1]
         if k == N.const(-1) and (b, "[-1]") in st.heap:
             return st.heap[(b, "[-1]")]      # x[-1] right after x.append(v)
         if b[0] not in ("tuple", "list", "dict", "c") and k[0] != "slice":
@@ -1647,7 +1660,11 @@ class Summariser:
                 args.append(t_)
         kws = []
         for k in node.keywords:
-            kws.append((k.arg if k.arg is not None else "**", self.expr(k.value, st)))
+            v_ = self.expr(k.value, st)
+            if k.arg is None and v_[0] == "kwdict":
+                kws.extend(v_[1])            # f(**kwargs) where kwargs are the extra keywords a helper run in place was called with
+            else:
+                kws.append((k.arg if k.arg is not None else "**", v_))
         args, kws = tuple(args), tuple(kws)
         kwd = dict(kws)
         if isinstance(f, ast.Name) and f.id == "bytes" and "bytes" not in st.env and len(args) == 1 and not kws and args[0][0] == "call" \
@@ -1785,6 +1802,16 @@ class Summariser:
 
     def call_method(self, base, meth, fterm, args, kws, kwd, node, st):
         M = self.model
+        if meth == "join" and N.is_const(base) and isinstance(base[2], str) and len(args) == 1 and not kws and args[0][0] == "call" and args[0][1][0] == "attr" \
+                and args[0][1][2] == "split" and len(args[0][2]) == 1 and N.is_const(args[0][2][0]) and isinstance(args[0][2][0][2], str) and args[0][2][0][2] and not args[0][3]:
+            # J.join(s.split(K)) is s.replace(K, J)
+            src = args[0][1][1]
+            return self.call_method(src, "replace", ("attr", src, "replace"), (args[0][2][0], base), (), {}, node, st)
+        if meth == "update" and len(args) == 1 and not kws and args[0][0] == "dict" and not any(k == ("**",) for k, _ in args[0][1]) and base[0] != "c":
+            # d.update({k: v, ...}) with a literal dict is the stores d[k] = v in order
+            for k_, v_ in args[0][1]:
+                self.emit(st, "STORE", {"base": base, "key": k_, "value": v_}, node)
+            return N.NONE
         is_super = base[0] == "call" and base[1] == ("free", "super")
         if is_super:
             t = ("call", fterm, args, kws)
@@ -1895,10 +1922,20 @@ class Summariser:
                 if not isinstance(dflt[nm], ast.Constant):
                     return None
                 sub.env[nm] = N.const(dflt[nm].value) if dflt[nm].value is not None else N.NONE
+        if (len(args) > len(names) and not a.vararg) or a.kwonlyargs:
+            return None
+        if a.vararg:
+            sub.env[a.vararg.arg] = ("tuple", tuple(args[len(names):]))
+        extra_kw = tuple((k, v) for k, v in kws if k not in names)
+        if extra_kw and not a.kwarg:
+            return None
+        if a.kwarg:
+            sub.env[a.kwarg.arg] = ("kwdict", extra_kw)
         for nm, v in zip(names, args):
             sub.env[nm] = v
         for k, v in kws:
-            sub.env[k] = v
+            if k in names:
+                sub.env[k] = v
         sub.trys = st.trys
         saved_fi, saved_cls = self.fi, self.self_cls
         self.fi, self.self_cls = fi, (fi.cls.name if fi.cls else None)
